@@ -26,10 +26,11 @@ import (
 // (the binary is built with -race by the driver; a report makes the test fail).
 func TestC15Race(t *testing.T) {
 	rec := evid.New(t, "C15", "maximally concurrent scenarios under the Go race detector: 3..5 channels (custom transports, TCP-server and UDP-server peers), 3..6 API goroutines mixing all six Write* calls, a router goroutine that edits received frames, calls FixFrame and forwards them with WriteFrameExcept, a consumer, heartbeats every 2-5 ms, stream requests triggered by ArduPilot heartbeats from several senders on several channels, peers connecting and leaving (also while Close is under way), rejected input producing parse-error events, a consumer that keeps the last events and reads them again later, a second node created on the same dialect object in mid-run, and Close racing with all of it; any DATA RACE report whose stack includes a gomavlib package is a violation; non-trivial = >=2 API goroutines and >=2 channel readers active in overlapping intervals (measured from the harness timeline); distinct by hash of the scenario parameters")
-	rec.Require("overlapping-api-and-readers", "close-racing", "tcp-peer-connecting-during-close", "kept-events-read-again", "incoming-key-with-signed-traffic-on-several-links")
+	rec.Require("overlapping-api-and-readers", "close-racing", "tcp-peer-connecting-during-close", "kept-events-read-again", "incoming-key-with-signed-traffic-on-several-links", "read-side-fails-while-a-slow-write-is-in-progress")
 	hbLay, _ := ref.LayoutOf(refTypeOf(&minimal.MessageHeartbeat{}))
 	evid.Check(t, rec, evid.N(60, 250), func(t *rapid.T) {
 		drawNodeInit(t)
+		slowLink := false
 		ncustom := rapid.IntRange(2, 3).Draw(t, "ncustom")
 		ntcp := rapid.IntRange(0, 2).Draw(t, "ntcp")
 		nudp := rapid.IntRange(0, 1).Draw(t, "nudp")
@@ -171,6 +172,12 @@ func TestC15Race(t *testing.T) {
 		// later its read side fails too (the channel ends and the transport is handed out again) - all of it while
 		// writers, readers and the router are busy
 		if ncustom > 0 && rapid.Bool().Draw(t, "first_custom_link_in_trouble") {
+			// the link may be a slow one as well: its writer is inside the transport for a while, so the read side
+			// fails while a write is in progress
+			if d := rapid.SampledFrom([]int{0, 0, 1, 3}).Draw(t, "slow_writes_ms"); d > 0 {
+				pipes[0].SetWriteDelay(time.Duration(d) * time.Millisecond)
+				slowLink = true
+			}
 			wg.Add(1)
 			go func() {
 				defer wg.Done()
@@ -394,7 +401,19 @@ func TestC15Race(t *testing.T) {
 			p.Close()
 		}
 		peersMu.Unlock()
+		// a transport handed to the node belongs to one writer at a time: two of the node's goroutines inside the same
+		// transport's Write at once are conflicting accesses to whatever that transport keeps (its buffers, its device)
+		for i, p := range pipes {
+			if o := p.Overlaps(); o > 0 {
+				msg := fmt.Sprintf("%s\ncustom transport %d: %d times a Write call of a node goroutine began while another goroutine of the node was still inside Write of the same transport (the transport was handed out again after a read error while the previous channel's writer was still using it)", desc, i, o)
+				evid.ReplayNote("C15", "TestC15Race", msg)
+				t.Fatalf("%s", msg)
+			}
+		}
 		var cls []string
+		if slowLink {
+			cls = append(cls, "read-side-fails-while-a-slow-write-is-in-progress")
+		}
 		nt := atomic.LoadInt32(&overlap) == 1 && atomic.LoadInt32(&readersActive) > 1
 		if nt {
 			cls = append(cls, "overlapping-api-and-readers")
